@@ -6,6 +6,9 @@
 int drv_sched(int argc, char **argv);
 int drv_sweep(int argc, char **argv);
 int drv_cells(int argc, char **argv);
+int drv_xvar(int argc, char **argv);
+int drv_cpusel(int argc, char **argv);
+int drv_selftest(int argc, char **argv);
 
 int
 main(int argc, char **argv)
@@ -19,6 +22,12 @@ main(int argc, char **argv)
         hx_install_handlers();
         if (!strcmp(argv[1], "sched"))
                 return drv_sched(argc - 2, argv + 2);
+        if (!strcmp(argv[1], "selftest"))
+                return drv_selftest(argc - 2, argv + 2);
+        if (!strcmp(argv[1], "cpusel"))
+                return drv_cpusel(argc - 2, argv + 2);
+        if (!strcmp(argv[1], "xvar"))
+                return drv_xvar(argc - 2, argv + 2);
         if (!strcmp(argv[1], "cells"))
                 return drv_cells(argc - 2, argv + 2);
         if (!strcmp(argv[1], "sweep"))
